@@ -72,6 +72,9 @@ def ops(kind):
     O["destructure_alias"] = lambda X, Y, v: [A.Assign(A.lst(V(X), V("_")) if L else A.ObjectE([A.Pair(S("k"), V(X)), A.Pair(S("m"), V("_"))]), wrap(V(Y)))]
     O["slot_concat"] = lambda X, Y, v: [A.OpAssign("+", first(X), A.lst(I(v)))]
     O["slot_concat_alias"] = lambda X, Y, v: [A.Assign(first(X), A.lst(I(v))), A.Assign(second(Y), first(X)), A.OpAssign("+", first(X), A.lst(I(v + 1)))]
+    O["keep_pairs"] = lambda X, Y, v: [A.Declare(V("kp%d" % v), A.lst()), A.For(V("pe"), V(Y), [A.OpAssign("+", V("kp%d" % v), A.lst(V("pe")))]),
+                                       A.Assign(V(X), A.lst(A.Index(V("kp%d" % v), I(0)), A.Index(V("kp%d" % v), I(1)))) if L else
+                                       A.Assign(V(X), A.obj(("k", A.Index(V("kp%d" % v), I(0))), ("m", A.Index(V("kp%d" % v), I(1)))))]
     if L:
         O["copy_concat"] = lambda X, Y, v: [A.Assign(V(X), A.Bin("+", V(Y), A.lst()))]
         O["copy_range_all"] = lambda X, Y, v: [A.Assign(V(X), A.RangeIndex(V(Y), None, None))]
